@@ -753,7 +753,7 @@ func (x *Exec) stepValue(st *State, ins ssa.Instruction, v ssa.Value) bool {
 		ref := x.allocRef(st, "closure")
 		st.assume(eq(app("codeOf", ref), num(int64(x.v.funcID(shortName(i.Fn.(*ssa.Function)))))))
 		x.trackAxiom(st, x.v.cf.Funcs[calleeName(i.Fn.(*ssa.Function))], ref, i.Fn.(*ssa.Function), binds)
-		if ccon := x.v.cf.Funcs[calleeName(i.Fn.(*ssa.Function))]; ccon != nil && len(ccon.Captures) > 0 && len(st.frames) == 1 {
+		if ccon := x.v.cf.Funcs[calleeName(i.Fn.(*ssa.Function))]; ccon != nil && !ccon.Inline && len(st.frames) == 1 {
 			cfn := i.Fn.(*ssa.Function)
 			vars := map[string]Val{}
 			for k, fv := range cfn.FreeVars {
@@ -762,6 +762,20 @@ func (x *Exec) stepValue(st *State, ins ssa.Instruction, v ssa.Value) bool {
 				}
 			}
 			cenv := &Env{x: x, st: st, old: nil, vars: vars, entry: st.entry}
+			for _, rq := range ccon.Requires {
+				for _, cj := range conjuncts(rq.E) {
+					if !captureOnly(cj, cfn) {
+						continue
+					}
+					g, err := cenv.evalBool(cj)
+					if err != nil {
+						x.errorf("%s: requires %q of %s: %v", x.shortFn(x.fn), rq.Src, shortName(cfn), err)
+						continue
+					}
+					x.emit(st, "pre", "closure-pre@"+lastSeg(shortName(cfn))+"."+exprString(cj), g, x.tagsOf(rq.Tags),
+						"what the closure assumes of its captured variables holds where it is made: "+exprString(cj), i.Pos())
+				}
+			}
 			for k, cl := range ccon.Captures {
 				g, err := cenv.evalBool(cl.E)
 				if err != nil {
